@@ -1407,6 +1407,57 @@ func init() {
 		}
 		c.Note("C15: largest |measured return time - abstract return time of the model| over %d dial runs: %d ms (observation; the oracle is elapsed <= deadline + %d ms)", len(timeLines), maxDev.Milliseconds(), tnSlack.Milliseconds())
 
+		// ---------- (2b) ONE Dialer value used for several dials: each dial has its own deadline ----------
+		for round := 0; round < c.Budget(2, 12) && c.TimeLeft(); round++ {
+			short := 150 + 50*c.Rng.Intn(3)
+			dl := telnet.Dialer{Timeout: time.Duration(short) * time.Millisecond}
+			dialOnce := func(chunks []tnChunk, query string) (time.Duration, error) {
+				ln, err := net.Listen("tcp", "127.0.0.1:0")
+				if err != nil {
+					return 0, err
+				}
+				defer ln.Close()
+				peer := newTCPPeer(chunks, "silent", 0)
+				go peer.serve(ln)
+				defer peer.Release()
+				u := &url.URL{Scheme: "telnet", Host: ln.Addr().String(), Path: "/wl2k", User: url.UserPassword("LA1B", "pw"), RawQuery: query}
+				tu, err := transport.ParseURL(u.String())
+				if err != nil {
+					return 0, err
+				}
+				t0 := time.Now()
+				done := make(chan error, 1)
+				go func() {
+					conn, err := dl.DialURL(tu)
+					if conn != nil {
+						conn.Close()
+					}
+					done <- err
+				}()
+				select {
+				case err = <-done:
+				case <-time.After(6 * time.Second):
+					err = errors.New("still blocked after 6 s")
+				}
+				return time.Since(t0), err
+			}
+			healthy := []tnChunk{{At: 0, Data: []byte(tnCallProm)}, {At: 5, Data: []byte(tnPwProm)}}
+			long := fmt.Sprintf("dial_timeout=%dms", 3000+500*c.Rng.Intn(3))
+			rep := map[string]interface{}{"dialer_timeout_ms": short, "history": []string{"silent server, no parameter", "healthy server, " + long, "silent server, no parameter"}}
+			el1, _ := dialOnce(nil, "")
+			_, err2 := dialOnce(healthy, long)
+			el3, err3 := dialOnce(nil, "")
+			rep["elapsed_ms"] = []int64{el1.Milliseconds(), el3.Milliseconds()}
+			if err2 != nil {
+				c.Violate("C15:dial-fails-on-complete-login", "second dial of the history failed although the server sent a complete login dialogue: "+err2.Error(), rep)
+			}
+			lim := time.Duration(short)*time.Millisecond + tnSlack
+			if el1 > lim || el3 > lim || err3 == nil {
+				c.Violate("C15:dial-exceeds-deadline:dialer-reuse", fmt.Sprintf("a Dialer with Timeout %d ms against a silent server returned after %d ms, and after %d ms once an earlier dial on the same Dialer had carried %s (err %v)", short, el1.Milliseconds(), el3.Milliseconds(), long, err3), rep)
+			}
+			c.Res.Distribution["client-tcp/dialer-reuse(oracle only)"]++
+		}
+
 		// ---------- (3) server over TCP against scripted clients ----------
 		sv := genServerScenarios(c.Rng, c.Budget(100, 1200), "server-tcp")
 		sres := runParallel(sv, workers, c.TimeLeft, runServerTCP)
